@@ -596,8 +596,13 @@ class Interp:
     def cut_loop(self, s, frame, spec, n, kind):
         """Inductive-invariant rule: establish; havoc+assume; one arbitrary iteration; preserve."""
         tag = f"{frame.qualname}/loop{n}"
-        g0 = spec.establish(self, frame, tag)
-        g = spec.havoc(self, frame, g0)
+        try:
+            g0 = spec.establish(self, frame, tag)
+            g = spec.havoc(self, frame, g0)
+        except KeyError as e:
+            # the invariant names a local variable that no longer exists (renamed / restructured loop):
+            # the obligation is undecided, never a verdict
+            raise Unsupported(f"loop contract of {tag} refers to a local that does not exist: {e}") from None
         if kind == "while":
             cond = self.truth(self.eval(s.test, frame))
         else:
@@ -613,7 +618,10 @@ class Interp:
             return
         except _Continue:
             pass
-        spec.preserve(self, frame, g, tag)
+        try:
+            spec.preserve(self, frame, g, tag)
+        except KeyError as e:
+            raise Unsupported(f"loop contract of {tag} refers to a local that does not exist: {e}") from None
         raise Infeasible()  # cut: the arbitrary iteration ends here
 
     def x_For(self, s, frame):
